@@ -900,6 +900,37 @@ func extra8C04b(c *Ctx) {
 		}
 	}
 	c.Expect(rule, "model look-ups in package server", n, 8)
+	// the same loss on the way to the registry functions, which derive the manifest's path from the string
+	// they are given (two sites of today's tree are recorded as known findings)
+	k := 0
+	for _, f := range c.P.FuncsOf("server") {
+		if strings.HasSuffix(c.Pos(f.Body), "_test.go") {
+			continue
+		}
+		info := f.Info()
+		var g *core.Graph
+		for _, fl := range append([]*core.Func{f}, f.Lits()...) {
+			for _, call := range core.CallsTo(info, fl.Body, false, "server.PullModel", "server.PushModel") {
+				if len(call.Args) < 2 {
+					continue
+				}
+				k++
+				if g == nil {
+					g = c.G(fl)
+				}
+				bad := ""
+				for _, x := range expand(c.G(fl), call.Args[1], 2) {
+					for _, ds := range core.Calls(x, false) {
+						if strings.HasSuffix(core.CalleeName(info, ds), "Name.DisplayShortest") {
+							bad = core.ExprString(ds)
+						}
+					}
+				}
+				c.Check(rule, f.Key()+" call:"+strings.TrimPrefix(core.CalleeName(info, call), "server.")+" by the stored name", c.Pos(call), bad == "", "the manifest path is derived from `"+bad+"`: a model stored under another spelling of the default host or namespace gets a second manifest that differs only by case")
+			}
+		}
+	}
+	c.Expect(rule, "PullModel / PushModel calls from handlers", k, 2)
 }
 
 // ---------------------------------------------------------------------------------- C01 (liveness at the hand-out)
